@@ -146,10 +146,18 @@ def case_c01(rep, spec):
         if kap > KAPMAX:
             rep.count(1)            # ill-conditioned point: no finite-precision promise
             continue
+        # rounding of y (relative EPS) is amplified by |J^-1|: for an elementwise map cond(J) is 1 however flat the map is
+        # (tanh at x = -18 has derivative 9e-16: an ulp of y is a quarter of a unit of x), so the bound carries |y| / sigma_min(J)
+        with np.errstate(all="ignore"):
+            sv = np.linalg.svd(np.atleast_2d(J), compute_uv=False)
+            amp = (1 + np.abs(yn).max()) / sv.min() if sv.size and sv.min() > 0 else np.inf
+        if not np.isfinite(amp) or amp > KAPMAX:
+            rep.count(1)
+            continue
         if z["bisect"]:
             tol = 4 * _bisect_bound(J, 1e-7).reshape(xn.shape) * scale + 1e-9 if spec["src"] == "leaf" else 1e-4 * scale * max(1.0, kap)
         else:
-            tol = 256 * EPS * scale * max(1.0, kap)
+            tol = 256 * EPS * (scale * max(1.0, kap) + amp)
         rep.count(1, (z["name"], p["tag"][:24]))
         if not np.all(np.abs(xbn - xn) <= tol):
             rep.violation({**key, "what": "inverse(transform(x)) != x"},
@@ -167,8 +175,11 @@ def case_c01(rep, spec):
                 ki = _cond(Ji)
                 yy = np.asarray(b.transform(xi, c))
                 sc2 = 1 + np.abs(xn).max() + np.abs(np.asarray(xi)).max()
-                if ki <= KAPMAX:
-                    tol2 = (1e-4 * sc2 * max(1.0, ki)) if z["bisect"] else 256 * EPS * sc2 * max(1.0, ki)
+                with np.errstate(all="ignore"):
+                    svi = np.linalg.svd(np.atleast_2d(Ji), compute_uv=False)
+                    ampi = np.abs(np.atleast_2d(Ji)).max() * (1 + np.abs(np.asarray(xi)).max()) if svi.size else np.inf      # forward amplification of the rounding of inverse(y)
+                if ki <= KAPMAX and np.isfinite(ampi) and ampi <= KAPMAX:
+                    tol2 = (1e-4 * sc2 * max(1.0, ki)) if z["bisect"] else 256 * EPS * (sc2 * max(1.0, ki) + ampi)
                     rep.count(1, (z["name"], "codomain", p["tag"][:24]))
                     if not np.all(np.abs(yy - xn) <= tol2):
                         rep.violation({**key, "what": "transform(inverse(y)) != y"},
